@@ -149,18 +149,26 @@ def _file_item(it):
         f.write(''.join(lines))
     got = []
     orig = dd.parse_dump_data
+    from .. import drawer
+    hdr = os.path.join(drawer.io_dir(), 'mex_pte.h')
+    strf = os.path.join(drawer.io_dir(), 'mexStringFile')
 
     def spy(data, header_file, string_file):
         got.append(bytes(data))
-        return []
+        return orig(data, header_file, string_file)
     dd.parse_dump_data = spy
     try:
-        dd.parse_dump_file(path, '/nonexistent/header.h', '/nonexistent/strings')
+        shown = dd.parse_dump_file(path, hdr, strf)
     finally:
         dd.parse_dump_data = orig
         os.remove(path)
-    return dict(kind='file', shape_ok=len(got) <= 1, fmt=it['fmt'], lines=_cp(lines), data=it['data'],
-                result=list(got[0]) if got else [])
+    if got or not shown:
+        result = list(got[0]) if got else []
+    else:
+        # the reader did not go through the module-level parse_dump_data (an internal detail): the bytes it
+        # recovered are observed through what it shows - the same as the decoder shows for the data itself
+        result = list(it['data']) if shown == orig(memoryview(bytes(it['data'])), hdr, strf) else []
+    return dict(kind='file', shape_ok=len(got) <= 1, fmt=it['fmt'], lines=_cp(lines), data=it['data'], result=result)
 
 
 def _item(it):
